@@ -113,12 +113,26 @@ Theorem C04_shell_script_asks :
 Proof. exact (conj bash_script_asks dash_script_asks). Qed.
 Print Assumptions C04_shell_script_asks.
 
-(* env [NAME=VALUE]... COMMAND ARG... *)
+(* env [NAME=VALUE]... COMMAND ARG... : env executes COMMAND ARG...; since /repo 7bd4070 the handler delegates it
+   behind the assignments that set a variable deciding what runs (allowlists.sets_execution_var: PATH, LD_PRELOAD,
+   ...), in order - env_kept assigns = filter sets_exec assigns; every other assignment is dropped as before.
+   The kept words are an assignment prefix of the delegated simple command: the ladder skips them
+   (Props/C04L.v C04_env_prefix), the walker asks for each of them ("sets PATH"), the command stays visible. *)
 Theorem C04_extract_env : forall assigns c0 cs,
   forallb assign_word assigns = true -> dash c0 = false -> has_eq c0 = false ->
-  env_h ($"env" :: assigns ++ c0 :: cs) = HWords [c0 :: cs] false /\ env_exec (assigns ++ c0 :: cs) = Some [c0 :: cs].
+  env_h ($"env" :: assigns ++ c0 :: cs) = HWords [env_kept assigns ++ c0 :: cs] false /\ env_exec (assigns ++ c0 :: cs) = Some [c0 :: cs].
 Proof. exact env_extract. Qed.
 Print Assumptions C04_extract_env.
+(* what is kept: exactly the listed assignments that set an execution variable (nothing else enters the delegated
+   text), and nothing when no assignment does - then the delegated words ARE the executed command and
+   C04_no_launder / C04_exact_delegate apply as they stand *)
+Theorem C04_env_kept : forall assigns,
+  forallb sets_exec (env_kept assigns) = true /\ (forall a, In a (env_kept assigns) -> In a assigns).
+Proof. exact env_kept_spec. Qed.
+Print Assumptions C04_env_kept.
+Theorem C04_env_kept_none : forall assigns, forallb (fun a => negb (sets_exec a)) assigns = true -> env_kept assigns = [].
+Proof. exact env_kept_none. Qed.
+Print Assumptions C04_env_kept_none.
 
 (* env OPTION... [NAME=VALUE]... COMMAND ARG... for every sequence of option words of env_opts:
    clusters of -i -v (any length), -u NAME / -C DIR as last letter of a cluster with the value separate or
@@ -128,7 +142,7 @@ Print Assumptions C04_extract_env.
    every DIR, every assignment list, every command (the spellings 23c5075 repaired included) *)
 Theorem C04_extract_env_opts : forall opts assigns c0 cs,
   env_opts opts -> forallb assign_word assigns = true -> dash c0 = false -> has_eq c0 = false ->
-  env_h ($"env" :: opts ++ assigns ++ c0 :: cs) = HWords [c0 :: cs] false /\
+  env_h ($"env" :: opts ++ assigns ++ c0 :: cs) = HWords [env_kept assigns ++ c0 :: cs] false /\
   env_exec (opts ++ assigns ++ c0 :: cs) = Some [c0 :: cs].
 Proof. exact env_extract_opts. Qed.
 Print Assumptions C04_extract_env_opts.
@@ -219,6 +233,13 @@ Proof.
   apply (eo_long $"block" $"block-signal" AOpt); [reflexivity|vm_compute; reflexivity|cbn; tauto|].
   apply (eo_long_unset_sep $"uns" AReq $"X"); [reflexivity|vm_compute; reflexivity|reflexivity|]. constructor.
 Qed.
+(* env -i PATH=/x FOO=1 zap a delegates PATH=/x zap a; a PATH of system directories and FOO=1 are dropped *)
+Example C04_example_env_kept :
+  modelled (w ["env"; "-i"; "PATH=/x"; "FOO=1"; "zap"; "a"]) = Some (HWords [w ["PATH=/x"; "zap"; "a"]] false) /\
+  modelled (w ["env"; "PATH=/usr/bin:/bin"; "LD_PRELOAD=l.so"; "A=1"; "PATH+=:/y"; "ls"]) = Some (HWords [w ["LD_PRELOAD=l.so"; "PATH+=:/y"; "ls"]] false) /\
+  modelled (w ["env"; "PATH=/x"]) = Some HAllow /\
+  env_kept (w ["A=1"; "B=2"]) = [].
+Proof. vm_compute. repeat split; reflexivity. Qed.
 Example C04_example_oracles_satisfiable :
   let judge := fun (_ : bool) (_ : list str) => Ask in
   let astr := fun (_ : bool) (s : str) => match s with [] => Allow | _ => Ask end in
